@@ -382,6 +382,9 @@ func (c *checker) compareStyle(i int, e mstyle, o canvas.Style, data []float64) 
 		if len(o.Dashes) == 0 && !c.mutated && offsetSignTrigger(e.dashOffset, e.dashes, subpathLengths(data)) {
 			class = "dash-simplification-offset-sign"
 		}
+		if class == "style-dashes" && len(o.Dashes) == 0 && len(e.dashes)%2 == 1 && !c.mutated {
+			class = "dash-simplification-odd-pattern" // dropped as if an odd-length pattern did not alternate
+		}
 		if n := len(e.dashes); n >= 3 && oOn && len(o.Dashes) > 0 && o.DashOffset == e.dashOffset && (e.dashes[0] == 0 || e.dashes[n-1] == 0) {
 			// a zero at either end was folded away, which shifts the pattern: would the recorded
 			// pattern be right with the shifted offset?
@@ -558,34 +561,47 @@ func check(h hist, r *fw.R, withKey bool) {
 			c.fail("caller-path-mutated", fmt.Sprintf("path handed to DrawPath was %s and is now %s", oracle.Fmt(xa.pathData[i]), oracle.Fmt(p.Data())))
 		}
 	}
-	var obs []rcall
-	for _, oc := range recA.calls {
-		if oc.visible() {
-			obs = append(obs, oc)
-		} else {
-			r.Outcome("observed-invisible-path-call-ignored")
+	// Align observed with expected calls. Calls without visible effect (empty path, neither fill
+	// nor stroke) may be made or not: the statement is silent. An expected stroke-only call whose
+	// dash pattern leaves nothing on the path (in either reading of the dash unit) is optional too.
+	obs := recA.calls
+	same := func(e mcall, o rcall) bool { // the same draw: kind, geometry, place
+		if e.kind != o.kind || !floatsEq(e.data, o.data) {
+			return false
 		}
+		ok, _ := matClose(o.m, e.m, 1e-12)
+		return ok
 	}
-	// Align observed with expected calls. An expected stroke-only call whose dash pattern leaves
-	// nothing on the path (in either reading of the dash unit) may be made or not.
 	j := 0
-	for i, e := range m.calls {
+	for i := 0; i < len(m.calls); i++ {
+		e := m.calls[i]
+		for j < len(obs) && !obs[j].visible() && !same(e, obs[j]) {
+			r.Outcome("observed-call-without-visible-effect-ignored")
+			j++
+		}
 		if c.optional(e) {
-			if j < len(obs) {
+			pair := j < len(obs) && same(e, obs[j])
+			if pair {
 				c.dry, c.dryFailed = true, false
 				c.compareCall(i, e, obs[j])
 				c.dry = false
-				if !c.dryFailed {
-					r.Outcome("draw-with-nothing-to-stroke:call-made")
-					j++
-					continue
+				if c.dryFailed && i+1 < len(m.calls) && same(m.calls[i+1], obs[j]) {
+					c.dry, c.dryFailed = true, false
+					c.compareCall(i+1, m.calls[i+1], obs[j])
+					c.dry = false
+					if !c.dryFailed {
+						pair = false // the call belongs to the next draw of the same path
+					}
 				}
 			}
-			r.Outcome("draw-with-nothing-to-stroke:no-visible-call")
-			continue
+			if !pair {
+				r.Outcome("draw-with-nothing-to-stroke:no-call")
+				continue
+			}
+			r.Outcome("draw-with-nothing-to-stroke:call-made")
 		}
 		if j >= len(obs) {
-			c.fail("call-count", fmt.Sprintf("%d visible renderer calls, the model expects call %d (%s at z=%d) as well; observed:%s", len(obs), i, kindNames[e.kind], e.z, listString(obs)))
+			c.fail("call-count", fmt.Sprintf("renderer calls exhausted, the model expects call %d (%s at z=%d) as well; observed:%s", i, kindNames[e.kind], e.z, listString(obs)))
 			break
 		}
 		if !c.compareCall(i, e, obs[j]) {
@@ -594,8 +610,12 @@ func check(h hist, r *fw.R, withKey bool) {
 		}
 		j++
 	}
-	if j < len(obs) {
-		c.fail("call-count", fmt.Sprintf("%d visible renderer calls, the model expects only %d; observed:%s", len(obs), j, listString(obs)))
+	for ; j < len(obs); j++ {
+		if obs[j].visible() {
+			c.fail("call-count", fmt.Sprintf("renderer call %d is not expected by the model (%d calls); observed:%s", j, len(m.calls), listString(obs)))
+			break
+		}
+		r.Outcome("observed-call-without-visible-effect-ignored")
 	}
 	// state after the history, then the whole stack popped down (one Pop too many at the end)
 	c.compareState("state", func() string { return "after the history" }, ctxA, m.cur, canvasW, canvasH)
@@ -991,7 +1011,7 @@ var seeds = [][]string{
 // notCore lists the calls left out of the deepest enumeration (variants of calls that stay in).
 var notCore = []string{
 	"SetStrokeColor(rgba(0,64,0,128))", "SetStrokeJoiner(RoundJoin)", "SetDashes(-0.25, 0.75)", "SetFillRule(NonZero)", "ResetStyle()",
-	"ReflectX()", "ReflectY()", "ReflectYAbout(1.5)", "ScaleAbout(2,0.5,1,1)", "ShearAbout(0,0.5,1,2)", "SetZIndex(0)",
+	"DrawPath(0,0, M0 0L0.5 0)", "ReflectX()", "ReflectY()", "ReflectYAbout(1.5)", "ScaleAbout(2,0.5,1,1)", "ShearAbout(0,0.5,1,2)", "SetZIndex(0)",
 }
 
 func letterSets() (full, core []int) {
@@ -1033,7 +1053,7 @@ func Prop() *fw.Property {
 	return &fw.Property{
 		ID:    "C15",
 		Level: "model_checking",
-		Rule: "explicit enumeration of the history tree: every sequence of <=4 calls from a 51-call alphabet (Push, Pop, 4 coordinate systems, fill/stroke colours, widths, joiner, 7 dash patterns incl. two with a 0, fill rules, ResetStyle, 12 view compositions, SetView, ResetView, SetCoordView, 3 z-indices, 2 DrawPath, DrawText, DrawImage, MoveTo/LineTo, Fill/Stroke/FillStroke) on a Context, plus all continuations of <=3 calls after five fixed prefixes (quick); thorough adds every sequence of exactly 5 calls over a 40-call core alphabet and the continuations of <=4 core calls after the prefixes; " +
+		Rule: "explicit enumeration of the history tree: every sequence of <=4 calls from a 52-call alphabet (Push, Pop, 4 coordinate systems, fill/stroke colours, widths, joiner, 7 dash patterns incl. two with a 0, fill rules, ResetStyle, 12 view compositions, SetView, ResetView, SetCoordView, 3 z-indices, 3 DrawPath, DrawText, DrawImage, MoveTo/LineTo, Fill/Stroke/FillStroke) on a Context, plus all continuations of <=3 calls after five fixed prefixes (quick); thorough adds every sequence of exactly 5 calls over a 40-call core alphabet and the continuations of <=4 core calls after the prefixes; " +
 			"state = one history (tree node), transition = its last call; every history is run on NewContext(recording renderer) and on NewContext(canvas.New(10,6)) and compared with the matrix/style stack model: renderer calls (count, order, z-index, path data bit-for-bit, style, matrix 1e-12), Context state after the history and after popping the whole stack and once more, Canvas replay = recorded calls in ascending z then draw order (exact, with the callers' paths edited afterwards), RenderViewTo/Transform/Clip/Fit; " +
 			"distinct_nontrivial = distinct canonical dumps (model state + recorded calls) among the unprefixed histories of <=3 calls and the prefixed ones with <=2 further calls",
 		Assumptions: []string{
@@ -1052,6 +1072,10 @@ func Prop() *fw.Property {
 			// DrawPath records the canonical dash pattern but keeps the un-shifted dash offset
 			"dash-offset-dropped": func(v *fw.Violation) bool {
 				return v.Class == "dash-canonical-offset-dropped" && strings.Contains(v.Case, "SetDashes(0, 0,1,2,3)")
+			},
+			// checkDash looks for the first element in the odd-length pattern without doubling it as Dash does
+			"dash-odd-pattern": func(v *fw.Violation) bool {
+				return v.Class == "dash-simplification-odd-pattern" && strings.Contains(v.Case, "SetDashes(-1, 6)") && strings.Contains(v.Case, "M0 0L0.5 0")
 			},
 			// checkDash compares the path length with d[i]-pos instead of d[i]+pos: needs a non-zero dash offset
 			"dash-offset-sign": func(v *fw.Violation) bool {
